@@ -589,39 +589,104 @@ func (fr *Frame) loopStoresSame(l *loop, a *ssa.Alloc) bool { return false }
 // precreateGhosts makes sure the ghost log cells written by calls inside the
 // loop exist before the loop is cut; it reports whether there are any.
 func (fr *Frame) precreateGhosts(l *loop, st *State) bool {
-	fx := fr.fx
-	intSh := shapeOf(types.Typ[types.Int])
 	any := false
-	for b := range l.body {
-		for _, in := range b.Instrs {
-			c, ok := in.(*ssa.Call)
-			if !ok {
+	seen := map[*ssa.Function]bool{}
+	var scan func(instrs []ssa.Instruction, fn *ssa.Function, depth int)
+	scan = func(instrs []ssa.Instruction, fn *ssa.Function, depth int) {
+		for _, in := range instrs {
+			var cc *ssa.CallCommon
+			switch x := in.(type) {
+			case *ssa.Call:
+				cc = &x.Call
+			case *ssa.Defer:
+				cc = &x.Call
+			default:
 				continue
 			}
-			cc := &c.Call
-			if cc.IsInvoke() {
+			if fr.precreateFor(cc, st) {
 				any = true
+			}
+			if depth >= 4 {
 				continue
 			}
-			if _, isB := cc.Value.(*ssa.Builtin); isB || cc.StaticCallee() != nil {
-				continue
+			// callees whose bodies will be inlined, and every closure made by
+			// the enclosing function (it may be the target of a dynamic call)
+			var targets []*ssa.Function
+			if callee := cc.StaticCallee(); callee != nil && len(callee.Blocks) > 0 {
+				if sp := fr.fx.eng.specFor(callee); sp == nil || sp.Inline {
+					targets = append(targets, callee)
+				}
+			} else if !cc.IsInvoke() {
+				for _, b := range fn.Blocks {
+					for _, i2 := range b.Instrs {
+						if mc, ok := i2.(*ssa.MakeClosure); ok {
+							targets = append(targets, mc.Fn.(*ssa.Function))
+						}
+					}
+				}
 			}
-			any = true
-			sig := cc.Signature()
-			fx.ghostCell(st, "cbcalls", intSh, mkInt(intSh, "0"))
-			for i := 0; i < sig.Params().Len(); i++ {
-				ash := &Shape{kind: KArr, elem: shapeOf(sig.Params().At(i).Type()), n: -1}
-				ash.key = "[cb]" + ash.elem.key
-				fx.ghostCell(st, fmt.Sprintf("cbarg:%d", i), ash, freshVal(fx.decls, ash, "cbargs0"))
-			}
-			if sig.Results().Len() == 1 {
-				ash := &Shape{kind: KArr, elem: shapeOf(sig.Results().At(0).Type()), n: -1}
-				ash.key = "[cb]" + ash.elem.key
-				fx.ghostCell(st, "cbres", ash, freshVal(fx.decls, ash, "cbres0"))
+			for _, t := range targets {
+				if seen[t] {
+					continue
+				}
+				seen[t] = true
+				for _, b := range t.Blocks {
+					scan(b.Instrs, t, depth+1)
+				}
 			}
 		}
 	}
+	for b := range l.body {
+		scan(b.Instrs, fr.fn, 0)
+	}
 	return any
+}
+
+// precreateFor creates the ghost log cells a call may write.
+func (fr *Frame) precreateFor(cc *ssa.CallCommon, st *State) bool {
+	fx := fr.fx
+	intSh := shapeOf(types.Typ[types.Int])
+	if cc.IsInvoke() {
+		fx.ghostCell(st, "evn", intSh, mkInt(intSh, "0"))
+		ksh := &Shape{kind: KArr, elem: intSh, n: -1, key: "[ev]kind"}
+		fx.ghostCell(st, "evkind", ksh, freshVal(fx.decls, ksh, "evkind0"))
+		iname := ""
+		if recvT := cc.Method.Type().(*types.Signature).Recv(); recvT != nil {
+			if n, ok := recvT.Type().(*types.Named); ok {
+				if n.Obj().Pkg() != nil {
+					iname = n.Obj().Pkg().Path() + "." + n.Obj().Name()
+				} else {
+					iname = n.Obj().Name()
+				}
+			}
+		}
+		name := iname + "." + cc.Method.Name()
+		all := append([]ssa.Value{cc.Value}, cc.Args...)
+		for i, a := range all {
+			ash := &Shape{kind: KArr, elem: shapeOf(a.Type()), n: -1}
+			ash.key = "[ev]" + ash.elem.key
+			fx.ghostCell(st, fmt.Sprintf("evarg:%s:%d", name, i), ash, freshVal(fx.decls, ash, "evargs0"))
+			fx.ghostCell(st, fmt.Sprintf("arg:%s:%d", name, i), ash.elem, freshVal(fx.decls, ash.elem, "arg0"))
+		}
+		fx.ghostCell(st, "calls:"+name, intSh, mkInt(intSh, "0"))
+		return true
+	}
+	if _, isB := cc.Value.(*ssa.Builtin); isB || cc.StaticCallee() != nil {
+		return false
+	}
+	sig := cc.Signature()
+	fx.ghostCell(st, "cbcalls", intSh, mkInt(intSh, "0"))
+	for i := 0; i < sig.Params().Len(); i++ {
+		ash := &Shape{kind: KArr, elem: shapeOf(sig.Params().At(i).Type()), n: -1}
+		ash.key = "[cb]" + ash.elem.key
+		fx.ghostCell(st, fmt.Sprintf("cbarg:%d", i), ash, freshVal(fx.decls, ash, "cbargs0"))
+	}
+	if sig.Results().Len() == 1 {
+		ash := &Shape{kind: KArr, elem: shapeOf(sig.Results().At(0).Type()), n: -1}
+		ash.key = "[cb]" + ash.elem.key
+		fx.ghostCell(st, "cbres", ash, freshVal(fx.decls, ash, "cbres0"))
+	}
+	return true
 }
 
 func (fr *Frame) assumeIterInvariant(st *State, r *ssa.Range, pos Val) {
